@@ -3,12 +3,12 @@ from vpkg import csrc
 _t = csrc.Tree()
 _ss = [f.name for f in _t.by_file[csrc.REPO + "/src/state/bidib_state_setter.c"]]
 def _u(name, define, keep, **kw):
-    return Unit(name=name, src="units/C15/nodes.c", defines=[define], functions=keep, props=["C15"], no_dfcc=True,
+    return Unit(name=name, src="units/C15/nodes.c", defines=[define], functions=keep, props=kw.pop("props", ["C15"]), no_dfcc=True,
                 remove_bodies=[f for f in _ss if f not in keep], extra_flags=["--nondet-static", "--unwind", "5"], covers=1, min_obligations=4,
                 stubbed_contracts=["bidib_state_get_board_ref_by_uniqueid"], **kw)
 UNITS = [
     _u("C15.is_subnode", "VP_H_SUBNODE", ["bidib_state_is_subnode"], note="loop bounded by the 3 address levels: complete over all valid address pairs"),
-    _u("C15.node_new", "VP_H_NODE_NEW", ["bidib_state_node_new"], note="loop-free: complete"),
+    _u("C15.node_new", "VP_H_NODE_NEW", ["bidib_state_node_new"], note="loop-free: complete", props=["C15", "C09"]),
     _u("C15.node_lost", "VP_H_NODE_LOST", ["bidib_state_node_lost", "bidib_state_is_subnode"], kind="bounded", bound="3 configured boards with arbitrary addresses / class bits / connectivity (loop unwound completely for that size)"),
     Unit(name="C15.query_nodetab", src="units/C15/nodetab.c", functions=["bidib_state_query_nodetab"], props=["C15", "C20"], no_dfcc=True,
          kind="bounded", bound="node table of <= 2 rows, 3 configured boards, arbitrary answers incl. a table change at any row; loops unwound completely for that size",
